@@ -69,7 +69,9 @@ impl Rule {
                 v.push((start.date(yy) * 86_400 + *start_time as i64 - std.utoff as i64, true));
                 v.push((end.date(yy) * 86_400 + *end_time as i64 - dst.utoff as i64, false));
             }
-            v.sort();
+            // at one and the same instant the start comes first: daylight time of zero length never
+            // applies (the reading of POSIX TZ that glibc implements: DST iff start <= t < end when start <= end)
+            v.sort_by_key(|x| (x.0, !x.1));
         }
         v
     }
@@ -100,6 +102,25 @@ impl Rule {
     }
     /// the quantifier's restriction: both transitions more than one day inside the calendar year,
     /// in local time of either side, for every year type
+    /// both rule transitions more than a day inside every probed year (the quantifier's restriction), without
+    /// the distance requirement of `well_inside_year`
+    pub fn edges_inside_year(&self) -> bool {
+        match self {
+            Rule::Fixed(_) => true,
+            Rule::Alt { std, dst, start, start_time, end, end_time } => {
+                for y in (1995i64..2023).chain([1899, 1900, 2000, 2100]) {
+                    let jan1 = cal::days_from_civil(y, 1, 1) * 86_400;
+                    let next = cal::days_from_civil(y + 1, 1, 1) * 86_400;
+                    let spread = (std.utoff - dst.utoff).abs() as i64;
+                    for (d, t) in [(start, start_time), (end, end_time)] {
+                        let local = d.date(y) * 86_400 + *t as i64;
+                        if local - spread < jan1 + 2 * 86_400 || local + spread > next - 2 * 86_400 { return false; }
+                    }
+                }
+                true
+            }
+        }
+    }
     pub fn well_inside_year(&self) -> bool {
         match self {
             Rule::Fixed(_) => true,
